@@ -319,7 +319,9 @@ where
         MsgColor::Cyan => left.cyan(),
         MsgColor::Red => left.red(),
     };
-    println!("{left:>12} {right}");
+    // A progress message that cannot be printed (closed pipe, full disk) must not abort the
+    // command half-way through its work
+    let _ = writeln!(std::io::stdout(), "{left:>12} {right}");
 }
 
 fn run(name: &PathBuf, debugger_opts: Option<debugger::Options>, minimal: bool) -> Result<()> {
